@@ -91,6 +91,47 @@ func FreshSites(p *load.Program, rels ...string) []FreshSite {
 				}
 				return true
 			})
+			// variables defined inside the body from the results of a module helper (`a, b := collect(x)`):
+			// fresh by construction when the helper returns only its own locals
+			ast.Inspect(body, func(m ast.Node) bool {
+				as, ok := m.(*ast.AssignStmt)
+				if !ok || as.Tok != token.DEFINE || len(as.Rhs) != 1 {
+					return true
+				}
+				call, ok := ast.Unparen(as.Rhs[0]).(*ast.CallExpr)
+				if !ok {
+					return true
+				}
+				callee, _ := load.Callee(info, call).(*types.Func)
+				if callee == nil || callee.Pkg() == nil || !p.InModulePath(callee.Pkg().Path()) {
+					return true
+				}
+				for _, l := range as.Lhs {
+					id, ok := ast.Unparen(l).(*ast.Ident)
+					if !ok || id.Name == "_" {
+						continue
+					}
+					v, ok := info.Defs[id].(*types.Var)
+					if !ok {
+						continue
+					}
+					switch v.Type().Underlying().(type) {
+					case *types.Slice, *types.Map:
+					default:
+						continue
+					}
+					if !consumedByCall(info, body, v) {
+						continue
+					}
+					site := FreshSite{Key: fmt.Sprintf("%s#loop-%d:%s", load.DeclKey(rel, fd), loopN, v.Name()), Pos: p.Pos(as.Pos())}
+					if why, ok := returnsOwnLocals(p, callee); !ok {
+						site.Stale = true
+						site.Why = fmt.Sprintf("variable %q is produced by %s, whose result is not shown to be fresh per call: %s", v.Name(), callee.Name(), why)
+					}
+					out = append(out, site)
+				}
+				return true
+			})
 			for obj, pos := range filled {
 				v, ok := obj.(*types.Var)
 				if !ok || v.IsField() || v.Parent() == nil || v.Parent() == pk.Types.Scope() {
@@ -131,6 +172,90 @@ func FreshSites(p *load.Program, rels ...string) []FreshSite {
 		})
 	})
 	return out
+}
+
+func consumedByCall(info *types.Info, body *ast.BlockStmt, obj types.Object) bool {
+	consumed := false
+	ast.Inspect(body, func(m ast.Node) bool {
+		call, ok := m.(*ast.CallExpr)
+		if !ok {
+			return true
+		}
+		if fid, ok := ast.Unparen(call.Fun).(*ast.Ident); ok && (fid.Name == "append" || fid.Name == "len" || fid.Name == "cap") {
+			return true
+		}
+		for _, a := range call.Args {
+			if id, ok := ast.Unparen(a).(*ast.Ident); ok && info.ObjectOf(id) == obj {
+				consumed = true
+			}
+		}
+		return true
+	})
+	return consumed
+}
+
+// returnsOwnLocals: every return statement of the function returns local variables declared in its own
+// body (not parameters, not package variables, not fields), nil, or composite/make expressions; named
+// results count as locals.
+func returnsOwnLocals(p *load.Program, callee *types.Func) (string, bool) {
+	fd, pk := p.DeclOf(callee)
+	if fd == nil || fd.Body == nil {
+		return "its source was not found", false
+	}
+	info := pk.TypesInfo
+	ok := true
+	why := ""
+	params := map[types.Object]bool{}
+	if fd.Recv != nil {
+		for _, f := range fd.Recv.List {
+			for _, n := range f.Names {
+				params[info.Defs[n]] = true
+			}
+		}
+	}
+	for _, f := range fd.Type.Params.List {
+		for _, n := range f.Names {
+			params[info.Defs[n]] = true
+		}
+	}
+	ast.Inspect(fd.Body, func(n ast.Node) bool {
+		if _, isLit := n.(*ast.FuncLit); isLit {
+			return false
+		}
+		ret, isRet := n.(*ast.ReturnStmt)
+		if !isRet {
+			return true
+		}
+		for _, res := range ret.Results {
+			switch x := ast.Unparen(res).(type) {
+			case *ast.Ident:
+				o := info.ObjectOf(x)
+				if x.Name == "nil" {
+					continue
+				}
+				v, isVar := o.(*types.Var)
+				if !isVar {
+					continue // constants
+				}
+				if params[o] || v.IsField() || v.Parent() == pk.Types.Scope() {
+					ok, why = false, "returns "+x.Name+", which is not a local of the helper"
+				}
+			case *ast.CompositeLit, *ast.BasicLit:
+			case *ast.CallExpr:
+				if fid, isId := ast.Unparen(x.Fun).(*ast.Ident); isId && (fid.Name == "make" || fid.Name == "append") {
+					continue
+				}
+				ok, why = false, "returns the result of another call"
+			default:
+				switch info.TypeOf(res).Underlying().(type) {
+				case *types.Slice, *types.Map, *types.Pointer:
+					ok, why = false, "returns an expression that may alias longer-lived storage"
+				}
+			}
+		}
+		return true
+	})
+	return why, ok
 }
 
 func freshRule(e *Env, rule string, min int, rels ...string) {
